@@ -10,6 +10,17 @@ From PyLib Require Import PyVal PyBuiltins Ideal Whnf PyEval.
 Import ListNotations.
 Open Scope R_scope.
 
+Ltac has_noncanon_arg t :=
+  lazymatch t with
+  | ?g ?a =>
+      first [ lazymatch type of a with
+              | val R => tryif is_canon a then fail else idtac
+              | _ => fail
+              end
+            | has_noncanon_arg g ]
+  | _ => fail
+  end.
+
 Ltac pyrun2_using tac :=
   lazymatch goal with
   | |- ?l = _ =>
@@ -59,6 +70,11 @@ Ltac pyrun2_using tac :=
               | _ =>
                   first [ match goal with H : s = _ |- _ => rewrite H end
                         | match goal with H : forall _, _ = _ |- _ => rewrite H end
+                        | (* reached lazily (inside a tuple display): evaluate its arguments first *)
+                          has_noncanon_arg s;
+                          let H := fresh "Hev" in
+                          eassert (H : s = _) by (pyrun2_using tac; py_canon_refl);
+                          rewrite H; clear H
                         | idtac "pyrun2: stuck on" s; fail 1 ]
               end
           end
